@@ -288,10 +288,10 @@ def mem_check(ctx, grps, vclause, nquick):
 @prop("C03")
 def c03(ctx):
     ctx.cov["rule"] = ("programs = GenMem gated cells (9 enable forms x 5 data forms, shared data/enable input, 1-3 readers, typed/untyped/"
-                       "item-typed cells, two independent and two chained cells); TLC explores ALL input histories (closure of ChangeInput "
+                       "item-typed cells, two independent and two chained cells, named or inline arithmetic enables with other consumers of the name); TLC explores ALL input histories (closure of ChangeInput "
                        "over the trimmed domain) of Circuit(BP) x abstract gated cell and compares every reader at every settled state: "
                        "0 before the first enabled write, follows v while c > 0, holds afterwards whatever v does")
-    mem_check(ctx, ("cell", "shared", "readers", "two", "cells", "samee", "early", "foreign"), "C03_value", 39)
+    mem_check(ctx, ("cell", "shared", "readers", "two", "cells", "samee", "early", "foreign", "enalias"), "C03_value", 39)
 
 
 @prop("C04")
